@@ -577,6 +577,7 @@ func vsBitswapWorld(s *verifsim.Sim) {
 				c := ft.coords[i]
 				if err := smp.Verify(sqA.Roots, c.Row, c.Col); err != nil || !bytes.Equal(smp.Share.ToBytes(), sqA.EDS.GetCell(uint(c.Row), uint(c.Col))) {
 					s.ViolateP("C06", "c06-unverified-data-returned", "bitswap.GetSamples", "bitswap Getter.GetSamples returned for (%d,%d) a sample that does not verify / is not the committed share (verify err=%v, call err=%v)", c.Row, c.Col, err, ft.err)
+					s.ViolateP("C01", "c01-rejected-data-accepted", "bitswap.GetSamples", "bitswap Getter.GetSamples handed back for (%d,%d) a sample that is not the committed share of that position (verify err=%v, call err=%v)", c.Row, c.Col, err, ft.err)
 					s.ViolateP("C10", "c10-populated-with-wrong-data", "sample-via-getter", "bitswap Getter.GetSamples returned for (%d,%d) a sample that is not the committed share (verify err=%v)", c.Row, c.Col, err)
 					return
 				}
@@ -594,6 +595,11 @@ func vsBitswapWorld(s *verifsim.Sim) {
 			}
 			if err := rb.check(sqA); err != nil {
 				s.ViolateP("C10", "c10-populated-with-wrong-data", vsKindWord(rb.kind), "%s: block %s was populated with data that is not the reference data of its identifier: %v", ft.name, rb.kind, err)
+				if vsKindWord(rb.kind) == "rownd" {
+					s.ViolateP("C02", "c02-rejected-data-accepted", "bitswap.rownd", "%s: the requested bitswap block %s was left holding namespace data that is not the complete committed data of that namespace and row: %v", ft.name, rb.kind, err)
+				} else {
+					s.ViolateP("C01", "c01-rejected-data-accepted", "bitswap."+vsKindWord(rb.kind), "%s: the requested bitswap block %s was left holding shares that are not the committed shares of that position: %v", ft.name, rb.kind, err)
+				}
 				s.ViolateP("C06", "c06-unverified-data-returned", "bitswap."+vsKindWord(rb.kind), "%s: bitswap block %s holds data that does not verify against the header: %v", ft.name, rb.kind, err)
 				return
 			}
